@@ -62,6 +62,7 @@ StoredRecvs ==
     [recv |-> Q("nowhere"), kind |-> "logical", name |-> "nowhere"],
     [recv |-> Q("poll://g1/i1"), kind |-> "logical", name |-> "poll://g1/i1"],
     [recv |-> Q("poll://g2"), kind |-> "logical", name |-> "poll://g2"],
+    [recv |-> Q("poll://g1/eu/w1"), kind |-> "logical", name |-> "poll://g1/eu/w1"],     \* an id with a slash in it
     [recv |-> Q("http://h.test/x"), kind |-> "logical", name |-> "http://h.test/x"],
     [recv |-> Q("https://h.test/y?z=1"), kind |-> "logical", name |-> "https://h.test/y?z=1"],
     [recv |-> Q("ftp://h.test/x"), kind |-> "logical", name |-> "ftp://h.test/x"],
@@ -81,6 +82,7 @@ TargetOf(tt, name) ==
 SchemeOf(name) ==
   CASE name = "poll://g1/i1" -> [type |-> "poll", data |-> "{\"group\":\"g1\",\"id\":\"i1\"}"]
     [] name = "poll://g2" -> [type |-> "poll", data |-> "{\"group\":\"g2\"}"]
+    [] name = "poll://g1/eu/w1" -> [type |-> "poll", data |-> "{\"group\":\"g1\",\"id\":\"eu/w1\"}"]
     [] name = "http://h.test/x" -> [type |-> "http", data |-> "{\"url\":\"http://h.test/x\"}"]
     [] name = "https://h.test/y?z=1" -> [type |-> "http", data |-> "{\"url\":\"https://h.test/y?z=1\"}"]
     [] OTHER -> [type |-> "", data |-> ""]
@@ -93,7 +95,41 @@ Resolve(tt, sr) ==
 
 TaskKinds == {"invoke", "resume", "notify"}
 
-RouteVectors == {[part |-> "route", tag |-> tc.v, class |-> tc.class] : tc \in TagCases}
+(***************************************************************************)
+(* Source tables (router configuration): every source names the tag it     *)
+(* looks at; the first source whose tag the promise carries decides; the   *)
+(* built-in source (tag resonate:invoke) is there exactly when no          *)
+(* configured source is named "default".                                   *)
+(***************************************************************************)
+Src(n, k) == [name |-> n, key |-> k]
+SourceTables ==
+  { [name |-> "stock", sources |-> <<>>],
+    [name |-> "default-replaced", sources |-> << Src("default", "acme:route") >>],
+    [name |-> "default-first", sources |-> << Src("default", "acme:route"), Src("audit", "acme:audit") >>],
+    [name |-> "default-last", sources |-> << Src("audit", "acme:audit"), Src("default", "acme:route") >>],
+    [name |-> "default-middle", sources |-> << Src("audit", "acme:audit"), Src("default", "acme:route"), Src("billing", "acme:bill") >>],
+    [name |-> "extra-only", sources |-> << Src("audit", "acme:audit") >>] }
+TagSets ==
+  { [name |-> "invoke-only", tags |-> << <<"resonate:invoke", "w1">> >>],
+    [name |-> "route-only", tags |-> << <<"acme:route", "w2">> >>],
+    [name |-> "audit-only", tags |-> << <<"acme:audit", "w3">> >>],
+    [name |-> "bill-and-invoke", tags |-> << <<"acme:bill", "w4">>, <<"resonate:invoke", "w1">> >>],
+    [name |-> "all", tags |-> << <<"resonate:invoke", "w1">>, <<"acme:route", "w2">>, <<"acme:audit", "w3">> >>],
+    [name |-> "none", tags |-> << <<"other", "x">> >>] }
+EffectiveKeys(st) ==
+  [i \in DOMAIN st.sources |-> st.sources[i].key]
+  \o (IF \E i \in DOMAIN st.sources : st.sources[i].name = "default" THEN <<>> ELSE <<"resonate:invoke">>)
+ValueOf(ts, k) == LET i == CHOOSE i \in DOMAIN ts.tags : ts.tags[i][1] = k IN ts.tags[i][2]
+Carries(ts, k) == \E i \in DOMAIN ts.tags : ts.tags[i][1] = k
+\* the receiver the router must answer ("" = not routed)
+SourceRecv(st, ts) ==
+  LET keys == EffectiveKeys(st)
+      hits == {i \in DOMAIN keys : Carries(ts, keys[i])} IN
+  IF hits = {} THEN "" ELSE Q(ValueOf(ts, keys[CHOOSE i \in hits : \A j \in hits : i <= j]))
+
+RouteVectors == {[part |-> "route", tag |-> tc.v, class |-> tc.class, table |-> "stock", sources |-> <<>>, ptags |-> <<>>] : tc \in TagCases}
+                \cup {[part |-> "route", tag |-> st.name \o "/" \o ts.name, class |-> "sources", table |-> st.name, sources |-> st.sources, ptags |-> ts.tags] :
+                        st \in SourceTables, ts \in TagSets}
 SendVectors == {[part |-> "send", table |-> tt.name, targets |-> tt.targets, recv |-> sr.recv, kind |-> k] :
                   tt \in TargetTables, sr \in StoredRecvs, k \in TaskKinds}
 
@@ -101,11 +137,18 @@ SendVectors == {[part |-> "send", table |-> tt.name, targets |-> tt.targets, rec
 (* Judging observations.                                                   *)
 (***************************************************************************)
 TagCase(v) == CHOOSE tc \in TagCases : tc.v = v
-RouteOK(o) ==   \* o = [tag, matched, recv, err, dead]
-  LET tc == TagCase(o.tag) IN
-  /\ ~ o.dead /\ ~ o.err
-  /\ o.matched = Routed(tc)
-  /\ Routed(tc) => o.recvNorm = tc.recv
+RouteOK(o) ==   \* o = [tag, class, table, tagset, matched, recv, err, dead]
+  IF o.class = "sources"
+  THEN LET st == CHOOSE st \in SourceTables : st.name = o.table
+           ts == CHOOSE ts \in TagSets : ts.name = o.tagset
+           want == SourceRecv(st, ts) IN
+       /\ ~ o.dead /\ ~ o.err
+       /\ o.matched = (want # "")
+       /\ (want # "") => o.recvNorm = want
+  ELSE LET tc == TagCase(o.tag) IN
+       /\ ~ o.dead /\ ~ o.err
+       /\ o.matched = Routed(tc)
+       /\ Routed(tc) => o.recvNorm = tc.recv
 
 TableByName(n) == CHOOSE tt \in TargetTables : tt.name = n
 StoredBy(r) == CHOOSE sr \in StoredRecvs : sr.recv = r
